@@ -31,7 +31,7 @@ REQUIRED = [
     "calls.Perm.rotate", "calls.Perm.reverse", "calls.Perm.complement", "calls.Perm.inverse", "calls.Perm.flip_antidiagonal",
     "calls.Perm.reverse_complement", "calls.Perm.all_syms", "calls.MeshPatt.rotate", "calls.MeshPatt.reverse",
     "calls.MeshPatt.complement", "calls.MeshPatt.inverse", "calls.MeshPatt.all_syms", "calls.symmetry.all_symmetry_sets",
-    "calls.symmetry.lex_min", "equivariance.true", "equivariance.false", "cli.inprocess", "cli.subprocess", "relations.checked", "aliasing.orbit_mutated", "equivariance.random_classmethod_patterns",
+    "calls.symmetry.lex_min", "equivariance.true", "equivariance.false", "cli.inprocess", "cli.subprocess", "relations.checked", "aliasing.orbit_mutated", "equivariance.random_classmethod_patterns", "equivariance.long_patterns",
 ]
 MIN_NONTRIVIAL = 500
 CTX = None
@@ -333,8 +333,8 @@ def plan(tier, seed):
              for n in range(nmax + 1) for parts in [1 if n < 6 else (4 if n == 6 else (16 if n == 7 else 96))] for part in range(parts)]
     specs += [{"name": f"mesh-small-{part}", "kind": "meshsmall", "part": part, "parts": 4} for part in range(4)]
     nrand = 3200 if tier == "quick" else 100000
-    specs += [{"name": f"rand-{i}", "kind": "rand", "mesh": nrand // 32, "equiv": nrand // 16, "sets": (320 if tier == "quick" else 6000) // 16}
-              for i in range(16)]
+    specs += [{"name": f"rand-{i}", "kind": "rand", "mesh": nrand // 32, "equiv": nrand // 16, "sets": (320 if tier == "quick" else 6000) // 16,
+               "long": i < (2 if tier == "quick" else 8)} for i in range(16)]
     if tier == "thorough":
         specs.append({"name": "pairs", "kind": "pairs"})
     return specs
@@ -417,7 +417,24 @@ def run(ctx, spec):
                 dens = rng.choice([0.05, 0.1, 0.25])
                 patt = enc(MeshPatt(Perm(p), [(x, y) for x in range(k + 1) for y in range(k + 1) if rng.random() < dens]))
             chk_equiv(ctx, t, patt, rng.randrange(8))
-        ctx.sample({"equivariance": {"text": t, "pattern": patt}})
+        if spec.get("long"):
+            # patterns of several hundred points inside a text with one extra point at the end / start / anywhere: all eight images
+            k = rng.randint(500, 620)
+            p = rng.sample(range(k), k)
+            for pos in (k, 0, rng.randint(0, k)):
+                val = rng.randint(0, k)
+                t = [v + (v >= val) for v in p]
+                t.insert(pos, val)
+                for g in range(8):
+                    chk_equiv(ctx, t, p, g)
+                j = rng.randrange(k)
+                t[j], t[j + 1] = t[j + 1], t[j]  # near miss
+                chk_equiv(ctx, t, p, rng.randrange(8))
+            chk_perm_long = Perm(p)
+            for name in ("reverse", "complement", "inverse", "reverse_complement", "flip_antidiagonal"):
+                getattr(chk_perm_long, name)()  # judged by the monitors against the isometries
+            ctx.count("equivariance.long_patterns")
+        ctx.sample({"equivariance": {"text": t[:30], "pattern": patt if not isinstance(patt, list) else patt[:30]}})
         for _ in range(spec["sets"]):
             perms = [rng.sample(range(k), k) for k in (rng.randint(1, 6) for _ in range(rng.randint(1, 4)))]
             chk_sets(ctx, perms)
